@@ -50,7 +50,9 @@ def run(ctx):
                 "(8 positions x 11 spellings) x 3 dialects x alias on/off; non-trivial = distinct pair whose two SQL "
                 "texts were produced and compared")
     ctx.trusted = ["spec/SqlLex.tla (the definition of a SQL string-literal / quoted-identifier token)"]
-    res = tlc.run("MC_C07", keep_lines=lambda r: r.get("k") == "case", timeout=3000)
+    # thorough: additionally every content of length 1..2 over a 17-character hostile alphabet (306 more contents per position)
+    res = tlc.run("MC_C07", constants={"Deep": "FALSE" if ctx.tier == "quick" else "TRUE"},
+                  keep_lines=lambda r: r.get("k") == "case", timeout=7000, heap="12g")
     ctx.add_tlc(res)
     if res.violation:
         ctx.violation({"kind": "model", "inv": res.violation}, {"tlc": res.raw_tail[-2000:]})
@@ -87,7 +89,8 @@ def run(ctx):
                         msg = str(e)
                         if "syntax" in msg or "unrecognized token" in msg or "incomplete" in msg:
                             ctx.violation(dict(key, what="sqlite-syntax-error"), {"text2": t2, "sql": b[1], "error": msg, "case": r})
-    validate(ctx, traces, info)
+    for a in range(0, len(traces), 25000):          # one TLC run per batch (JsonDeserialize of a huge file dominates otherwise)
+        validate(ctx, traces[a:a + 25000], info)
     ctx.exhaustive = True
 
 
